@@ -373,14 +373,17 @@ pub fn run(mut vm: Vm, input: &[u8], budget: u64, non_ascii_r0: Option<u16>) -> 
     let mut refused_word = false;
     let mut written: std::collections::BTreeSet<u16> = Default::default();
     let stop = loop {
+        // (the budget is checked first, as lace's fuel hook ticks at the top of its run loop: a run
+        // that would stop on the very iteration after its last budgeted instruction is out of fuel
+        // in both)
+        if steps == budget {
+            break RunStop::OutOfFuel;
+        }
         if vm.pc == 0xFFFF {
             break RunStop::Normal;
         }
         if !vm.in_user_space(vm.pc) {
             break RunStop::Exit(0xEE);
-        }
-        if steps == budget {
-            break RunStop::OutOfFuel;
         }
         let at = vm.pc;
         if !vm.in_user_space(at) {
